@@ -224,6 +224,28 @@ class SimRawSource(io.RawIOBase):
         return n
 
 
+class SimRawUnbuffered(SimRawSource):
+    """The raw source used *directly* (socket.SocketIO / FileIO / pipe style): read(n) returns
+    at most n bytes and may come back short before EOF.  io.RawIOBase.read(n) allocates n bytes
+    up front, so the allocator is simulated exactly as for AllocLimitedBufferedReader: a single
+    request above 1 GiB fails, anything else is served without really reserving n bytes."""
+
+    def read(self, size=-1):
+        if size is None or size < 0:
+            return self.readall()
+        if size > ALLOC_LIMIT:
+            raise MemoryError(f"sim: cannot allocate {size} bytes for one read request")
+        if size == 0:
+            self._n += 1
+            if self._budget is not None and self._n > self._budget:
+                raise SimBudgetExceeded(f"raw read #{self._n} exceeds budget {self._budget}")
+            return b""
+        limit = len(self._data) if self._fail_after is None else min(len(self._data), self._fail_after)
+        buf = bytearray(max(1, min(size, limit - self._pos)))
+        n = self.readinto(buf)
+        return bytes(buf[:n])
+
+
 class SimRawSink(io.RawIOBase):
     """Raw writable: accepts everything (blocking-socket semantics), records
     the segments; optionally raises a scripted error at raw write index i."""
@@ -291,3 +313,13 @@ def rng_chunker(rng, mode: str):
 
 
 CHUNK_MODES = ("one", "all", "small", "any")
+
+ALL = 1 << 30
+
+
+def short_read_chunks(rng, n: int = 128) -> list[int]:
+    """Chunk script for an *unbuffered* raw source (raw socket, pipe, FileIO): most reads are
+    served in full, some come back short although the stream is not at EOF - legal for
+    io.RawIOBase.read()."""
+    p_short = rng.choice((0.05, 0.2, 0.5, 1.0))
+    return [rng.randint(1, 8) if rng.random() < p_short else ALL for _ in range(n)]
